@@ -158,6 +158,9 @@ func main() {
 	if w.init != nil {
 		w.init(cfg)
 	}
+	if os.Getenv("VERIF_SITEPROF") != "" {
+		simrt.SiteProf = make([]int, 8192)
+	}
 	cnt := map[string]int{}
 	seen := map[uint64]struct{}{}
 	var samples []interface{}
@@ -198,6 +201,13 @@ func main() {
 			// process state tainted without a violation (harness cap): recycle the process
 			emit(&outLine{K: "stop", I: i})
 			break
+		}
+	}
+	if simrt.SiteProf != nil {
+		for i, n := range simrt.SiteProf {
+			if n > 0 {
+				fmt.Fprintf(os.Stderr, "siteprof %d %d\n", i-512, n)
+			}
 		}
 	}
 	hs := make([]string, 0, len(seen))
